@@ -12,7 +12,7 @@ ID = 'C17'
 RULE = ('(a) exhaustive: every field x every value of its boundary grid (each documented bound, its float '
         'neighbours, b+-1 for integer fields, 0, -0.0, +-inf, NaN, None, integer-valued floats, huge ints, bool, '
         'numpy scalars, str, list, complex; pairs: grid^2 plus wrong arity / list / inverted / equal ends) varied '
-        'from a valid base; (b) Hypothesis: 1-3 fields varied at once from the same grids or raw doubles. '
+        'from a valid base; (b) Hypothesis: 1-3 fields varied at once from the same grids or raw doubles, and 2-8 fields all set to documented values at once (domains are independent). '
         'Non-trivial = a varied value lies on/adjacent to a documented bound or is a special value (anything but '
         'a plain interior number); distinct by spec hash (field, value encoding).')
 BUDGET = {'quick': 3200, 'thorough': 200000}
@@ -280,6 +280,25 @@ def enumerate_cases(tier):
 
 # ---- Hypothesis combos -------------------------------------------------------
 
+VALID = {
+    'n_test': [1, 7, 14, 28, 98], 'iroas': [0.0, 0.5, 1.0, 3, 10.0],
+    'volume_ratio_tolerance': [0.05, 0.5, 1.0, 9.0, INF], 'geo_ratio_tolerance': [0.1, 0.5, 1.0, 3.0, INF],
+    'treatment_share_range': [(0.1, 0.5), (0.001, 0.999), (0.3, 0.9)], 'budget_range': [(0, 10), (0.1, 300000), (5.0, 5.5)],
+    'treatment_geos_range': [(1, 1), (1, 5), (2, 9), (3, 40), (5, 5)], 'control_geos_range': [(1, 1), (1, 5), (2, 9), (3, 40), (4, 4)],
+    'n_geos_max': [2, 3, 5, 8, 40], 'n_pretest_max': [3, 10, 90, 365], 'n_designs': [1, 3, 50, 10000],
+    'rho_max': [0.9, 0.95, 0.995, 0.999], 'sig_level': [0.05, 0.5, 0.9, 0.99], 'power_level': [0.05, 0.5, 0.8, 0.99],
+    'min_corr': [0.8, 0.9, 0.99], 'flevel': [0.9, 0.95, 0.999],
+}
+
+
+@st.composite
+def _all_valid(draw):
+  """Several fields at once, every one at a documented (interior or boundary) value: construction must succeed.
+  The documented domains are independent of each other, so any cross-field rejection is a violation."""
+  names = draw(st.lists(st.sampled_from(sorted(FIELDS)), min_size=2, max_size=8, unique=True))
+  return {'fields': {n: enc(VALID[n][draw(st.integers(0, len(VALID[n]) - 1))]) for n in names}}
+
+
 @st.composite
 def _combo(draw):
   names = draw(st.lists(st.sampled_from(sorted(FIELDS)), min_size=1, max_size=3, unique=True))
@@ -315,7 +334,7 @@ def _combo(draw):
 
 
 def strategy(tier):
-  return _combo()
+  return st.one_of(_combo(), _combo(), _all_valid())
 
 
 # ---- oracle --------------------------------------------------------------------
